@@ -27,7 +27,7 @@ Flag(c, name) == IF c THEN {} ELSE {name}
 Sides == {"c", "s"}
 Other(x) == IF x = "c" THEN "s" ELSE "c"
 MaxOf(S) == IF S = {} THEN -1 ELSE CHOOSE x \in S : \A y \in S : y <= x
-Window == 24
+Window == 12
 
 Blank == /\ issued = [x \in Sides |-> {}] /\ cidOf = [x \in Sides |-> <<>>] /\ rptMax = [x \in Sides |-> 0]
          /\ gone = [x \in Sides |-> {}] /\ retired = [x \in Sides |-> {}] /\ limit = [x \in Sides |-> 2]
